@@ -649,8 +649,12 @@ impl Ws {
         {
             return Some(d);
         }
-        // 1b. a test module / conftest importing the name makes it a module attribute too
-        //     (only conftest providers are enumerated by the generators; see `provided`)
+        // 1b. a test module importing the name makes it a fixture of that module too
+        if !self.files[file].is_conftest() {
+            if let Some(d) = self.provided(file, name, exclude, &mut Vec::new()) {
+                return Some(d);
+            }
+        }
         // 2. conftest.py files, nearest first
         let dir = self.files[file].dir().to_string();
         let comps: Vec<&str> = if dir.is_empty() {
